@@ -318,10 +318,10 @@ def codec(chk: Check):
     rseq, rbr = _ops_of_reader(chk, rctx)
     wseq, wbr, tail = _ops_of_writer(chk, wctx)
     want_seq = [("type", "AttributeType"), ("type", "uint8"), ("raw", 2), ("cstr",)]
-    chk.decide(rseq == want_seq and wseq == want_seq, "K-CODEC", "attribute-prefix", rctx.func,
+    chk.decide(rseq == want_seq and wseq == want_seq, "K-CODEC", "attribute-prefix", rctx.func if rseq != want_seq else wctx.func,
                "reader and writer agree on: type (u8 enum), flag (u8), two pad bytes, NUL-terminated name", expected=str(want_seq), found=f"read {rseq} / write {wseq}")
     want_br = {"String": [("cstr",)], "Bytes": [("type", "uint64"), ("raw", "len")], "else": [("table",)]}
-    chk.decide(rbr == want_br and wbr == want_br, "K-CODEC", "attribute-value-branches", wctx.func,
+    chk.decide(rbr == want_br and wbr == want_br, "K-CODEC", "attribute-value-branches", rctx.func if rbr != want_br else wctx.func,
                "String -> C string; Bytes -> u64 length + raw bytes; every other type -> the table's scalar type, for reader and writer alike",
                expected=str(want_br), found=f"read {rbr} / write {wbr}")
     chk.decide(tail == [("raw", 4)], "K-CODEC", "attribute-terminator", wctx.func, "the attribute list is terminated by 4 zero bytes (type Invalid + flag + pad)", found=str(tail))
